@@ -114,7 +114,7 @@ func collateOverlay() (string, []byte, error) {
 	if !strings.Contains(s, anchor) {
 		return "", nil, fmt.Errorf("x/text collate.go: Key has an unexpected shape, cannot install the replay hook")
 	}
-	s = strings.Replace(s, anchor, anchor+"\tif VerifKeyHook != nil {\n\t\tif out, ok := VerifKeyHook(str); ok {\n\t\t\tkn := len(buf.key)\n\t\t\tbuf.key = append(buf.key, out...)\n\t\t\treturn buf.key[kn:]\n\t\t}\n\t}\n", 1)
+	s = strings.Replace(s, anchor, anchor+"\tif VerifKeyHook != nil {\n\t\tif out, ok := VerifKeyHook(str); ok {\n\t\t\tc.getColElems(str) // the real, stateful pass over the input (its result is replaced by the table's key)\n\t\t\tkn := len(buf.key)\n\t\t\tbuf.key = append(buf.key, out...)\n\t\t\treturn buf.key[kn:]\n\t\t}\n\t}\n", 1)
 	s += "\n// VerifKeyHook is installed by the verification overlay only.\nvar VerifKeyHook func(str []byte) ([]byte, bool)\n"
 	return path, []byte(s), nil
 }
